@@ -90,6 +90,12 @@ func init() {
 					w.dev.RawRead = verifhook.ReadErrOther
 				case rd == "garbage":
 					w.dev.RawRead = verifhook.ReadGarbage
+					garbageCounter++
+					w.dev.GarbageText = garbageShapes[garbageCounter%len(garbageShapes)]
+				case rd == "blank":
+					w.dev.RawRead = verifhook.ReadGarbage
+					w.dev.GarbageText = []string{"\n", " \n", "\t\n"}[garbageCounter%3]
+					garbageCounter++
 				case rd == "empty":
 					w.dev.RawRead = verifhook.ReadEmpty
 				}
